@@ -297,7 +297,17 @@ func (t *Tables) Fingerprint() string {
 	for _, x := range t.Tasks {
 		tc[x.State]++
 	}
-	fmt.Fprintf(&sb, "p%v c%d s%d l%d t%v", sortedInt(pc), len(t.Callbacks), len(t.Schedules), len(t.Locks), sortedInt(tc))
+	// who holds which lock, which schedules exist (small id pools keep this an abstraction)
+	var ls, ss []string
+	for _, l := range t.Locks {
+		ls = append(ls, l.ResourceId+"="+l.ExecutionId)
+	}
+	for id := range t.Schedules {
+		ss = append(ss, id)
+	}
+	sort.Strings(ls)
+	sort.Strings(ss)
+	fmt.Fprintf(&sb, "p%v c%d s%v l%v t%v", sortedInt(pc), len(t.Callbacks), ss, ls, sortedInt(tc))
 	return sb.String()
 }
 
